@@ -1,0 +1,14 @@
+//go:build verif
+// +build verif
+
+// Package verifc20 forwards to internal/cgen for the /verif C20 harness
+// (deterministic compilation), which lives in another module and so cannot
+// import an internal package directly. Compiled only with -tags verif.
+package verifc20
+
+import (
+	"github.com/google/wuffs/internal/cgen"
+)
+
+// Do is cgen.Do: exactly what `wuffs-c gen <args>` runs (output on os.Stdout).
+func Do(args []string) error { return cgen.Do(args) }
